@@ -479,10 +479,14 @@ def k4_key_normal_form(ctx, K: Kinds) -> None:
             ctx.violation("K4", g, "Node.rule_keys builds an unsorted children component")
     # start component of rules_up_to_equivalence is a representative
     m = P.need_method("RuleDBBase", "rules_up_to_equivalence", own=True)
-    stores = [n for n in walk_local(m.node) if isinstance(n, ast.Subscript) and isinstance(n.value, ast.Name)
-              and isinstance(parent(n), ast.Attribute) and parent(n).attr == "add"]
+    # every evaluation of `<the dictionary returned>[key]` inside the loop: on a defaultdict it creates the entry
+    retnames = {r.value.id for r in C.returns_of(m.node) if isinstance(r.value, ast.Name)}
+    stores = [n for n in walk_local(m.node) if isinstance(n, ast.Subscript) and isinstance(n.value, ast.Name) and n.value.id in retnames
+              and isinstance(n.ctx, ast.Load) and C.enclosing_loops(m.node, n)]
     if not stores:
-        raise AnalysisError("K4: cannot find `rules_dict[<start>].add(...)` in rules_up_to_equivalence")
+        raise AnalysisError("K4: cannot find `rules_dict[<start>]...` in rules_up_to_equivalence")
+    if not [c for c in walk_local(m.node) if isinstance(c, ast.Call) and isinstance(c.func, ast.Attribute) and c.func.attr == "add"]:
+        raise AnalysisError("K4: rules_up_to_equivalence adds nothing to its dictionary")
     for s in stores:
         k = K.kind(s.slice, m.node)
         if isinstance(s.slice, ast.Subscript) and K._is_equivdb(s.slice.value, m.node):
@@ -507,8 +511,9 @@ def k4_key_normal_form(ctx, K: Kinds) -> None:
         if dropped:
             ctx.ok("K4", "a rule whose only child is equivalent to its parent is left out of the collapsed dictionary")
         else:
-            ctx.violation("K4", s, "rules inside one equivalence class are no longer left out by an equivalence test on (start, ends[0]): a one-way rule whose ends were "
-                          "merged by connect_cycles collapses to `r -> (r,)`, which the tree searcher accepts as a rule for r (a circular specification)")
+            ctx.violation("K4", s, "the dictionary entry of the representative is touched also for a rule inside one equivalence class (no equivalence test on (start, ends[0]) "
+                          "keeps it out): either the rule is recorded -- a one-way rule whose ends were merged by connect_cycles collapses to `r -> (r,)`, which the tree searcher "
+                          "accepts as a rule for r -- or a class with only such rules gets an entry without any rule")
     are = P.need_method("RuleDBBase", "are_equivalent", own=True)
     rets = [r for r in C.returns_of(are.node) if r.value is not None]
     ps = [a.arg for a in are.node.args.args[1:]]
@@ -1346,7 +1351,11 @@ def k20_smallest_bisection(ctx) -> None:
         in_handler = C.handlers_around(f, st) == [] and any(isinstance(a, ast.ExceptHandler) for a in _ancestors_until(st, w))
         if tg.id == hi:
             okv = norm(v) in (mid, f"len({node})", f"min({mid}, len({node}))", f"min(len({node}), {mid})")
-            if okv and not in_handler:
+            on_success = any(isinstance(a, ast.Try) and any(st is x for blk in (a.body, a.orelse) for y in blk for x in ast.walk(y)) for a in _ancestors_until(st, w))
+            if okv and not in_handler and not on_success:
+                ctx.violation("K20", st, f"`{norm(st)}` runs whether or not a tree within {mid} was found (it is outside the try that searches): after a failed probe the upper "
+                              "bound drops to the probe although nothing that small exists, and the search stops with a tree that is not the smallest")
+            elif okv and not in_handler:
                 ctx.ok("K20", f"after a successful search {hi} drops to `{norm(v)}` (at most {mid}, at least the size found)")
             else:
                 ctx.violation("K20", st, f"after finding a tree within {mid} the upper bound must become {mid}, len({node}) or their minimum; found `{norm(v)}`"
@@ -1418,6 +1427,40 @@ def k12_union_find_discipline(ctx) -> None:
 
 
 # ------------------------------------------------------------------------ K18
+
+    # labels are integers and 0 is a label: "no parent yet" must be told from "parent 0" by `is None`,
+    # never by truthiness
+    gi = cls.methods.get("__getitem__")
+    if gi is not None:
+        ctx.analysed(gi)
+        f = gi.node
+        lab = set()
+        for st in walk_local(f):
+            tg, v = (st.targets[0], st.value) if isinstance(st, ast.Assign) and len(st.targets) == 1 else (getattr(st, "target", None), getattr(st, "value", None)) if isinstance(st, ast.AnnAssign) else (None, None)
+            if isinstance(tg, ast.Name) and v is not None and ("self.parents.get(" in norm(v) or norm(v).startswith("self.parents[")):
+                lab.add(tg.id)
+        bad = False
+        for x in walk_local(f):
+            tests = []
+            if isinstance(x, (ast.If, ast.While, ast.IfExp)):
+                tests.append(x.test)
+            elif isinstance(x, ast.Assert):
+                tests.append(x.test)
+            for t in tests:
+                for y in [t] + list(ast.walk(t)):
+                    truthy = y if isinstance(y, ast.Name) else y.operand if isinstance(y, ast.UnaryOp) and isinstance(y.op, ast.Not) and isinstance(y.operand, ast.Name) else None
+                    if truthy is not None and truthy.id in lab and (y is t or isinstance(getattr(y, "_parent", None), (ast.BoolOp, ast.UnaryOp)) or isinstance(y, ast.UnaryOp)):
+                        par_ = getattr(truthy, "_parent", None)
+                        if isinstance(par_, ast.Compare):
+                            continue
+                        bad = True
+                        ctx.violation("K12", t, f"EquivalenceDB.__getitem__ tests the truth value of `{truthy.id}`, a label read from the parent table: label 0 (the start class) is "
+                                      "falsy, so once 0 is the representative of a class its members are re-initialised as their own roots and the class falls apart")
+                        break
+                    continue
+        if not bad and lab:
+            ctx.ok("K12", "an unseen label is recognised by `is None`, not by truthiness (label 0 is a label)")
+
 def k18_tree_searcher_purity(ctx) -> None:
     """The finders of tree_searcher receive the (cached) pruned dictionary: apart from
     `prune`, which is documented to work in place on a fresh dictionary, none of them may
